@@ -22,6 +22,7 @@ def _run(c, name, n, seed=None, corr=CORR):
 
 def run(c):
     c.proofs("theories/Properties/C07.v", clean=(c.tier == "thorough"))
+    c.translate(['TieIds'])  # T1: formulas / constants regenerated from the source, tie theorems re-checked
     n = 260 if c.tier == "quick" else 4000
     _run(c, "calls", n)
     if c.broken and not c.violations and not c.replay:
